@@ -203,7 +203,7 @@ def rows_bip44_shaped(data):
 
 # ------------------------------------------------------------------ running
 def run_inproc(argv, cwd, captured):
-    import btc_hd_wallet.__main__ as cli
+    import runpy
     out, err = io.StringIO(), io.StringIO()
     old_argv, old_cwd = sys.argv, os.getcwd()
     sys.argv = ["__main__.py"] + argv
@@ -213,7 +213,8 @@ def run_inproc(argv, cwd, captured):
     try:
         with log.window() as win, contextlib.redirect_stdout(out), contextlib.redirect_stderr(err):
             try:
-                cli.main()
+                # exactly what `python -m btc_hd_wallet` executes (no dependence on the name of an entry function)
+                runpy.run_module("btc_hd_wallet", run_name="__main__", alter_sys=False)
             except SystemExit as e:
                 code = e.code if isinstance(e.code, int) else (0 if e.code is None else 1)
             except BaseException as e:  # noqa - an uncaught exception ends a real process with status 1
